@@ -27,4 +27,11 @@ CONTROLS += [
     dict(name="a callee that receives the set of parameter names iterates it into a list (interprocedural)",
          edits=[("cdd/class_/utils/emit_utils.py", "        self.node_ids = node_ids\n", "        self.node_ids = node_ids\n        self.ordered_ids = list(node_ids)\n")],
          expect=r"order@cdd.class_.utils.emit_utils:RewriteName.__init__"),
+    dict(name="module-level template with a nested dict handed out by shallow copy (seed C02_c shape)",
+         edits=[("cdd/function/utils/parse_utils.py", "def _interpolate_return(function_def, intermediate_repr):\n", "_EMPTY_RETURNS = OrderedDict(((\"return_type\", {}),))\n\n\ndef _interpolate_return(function_def, intermediate_repr):\n"),
+                ("cdd/function/utils/parse_utils.py", "            intermediate_repr[\"returns\"] = OrderedDict(((\"return_type\", {}),))\n", "            intermediate_repr[\"returns\"] = _EMPTY_RETURNS.copy()\n")],
+         expect=r"state.shared-mutable-template@cdd.function.utils.parse_utils:_interpolate_return"),
+    dict(name="module-level flat dict passed to a helper that updates it in place (seed C16_c shape)",
+         edits=[("cdd/shared/pure_utils.py", "def update_d(d, arg=None, **kwargs):\n", "_DEFAULTS = {\"a\": 1}\n\n\ndef _with_defaults(**kw):\n    return update_d(_DEFAULTS, **kw)\n\n\ndef update_d(d, arg=None, **kwargs):\n")],
+         expect=r"state.shared-mutable-template@cdd.shared.pure_utils:_with_defaults"),
 ]
